@@ -4,7 +4,10 @@
 #include <sstream>
 
 #include "events.h"
+#include <functional>
+
 #include "logdir.h"
+#include "model.h"
 #include "oracle.h"
 
 namespace tsim {
@@ -53,6 +56,8 @@ Verdict judge_c11(const Plan &plan, const sim::Shm *shm, const ChildExit &, cons
         std::string text;
         long invoke = -1, ret = -1;
         bool fatal = false;
+        int type = 0;
+        std::string category;
     };
     std::map<int, Call> calls;
     bool plan_has_fatal = false;
@@ -65,6 +70,8 @@ Verdict judge_c11(const Plan &plan, const sim::Shm *shm, const ChildExit &, cons
                 c.opidx = (int)i;
                 c.text = expected_text11(producer, (int)i, ops[i]);
                 c.fatal = ops[i].kind == "fatal";
+                c.type = c.fatal ? 3 : ops[i].a;
+                c.category = kCategories[ops[i].b % kNumCategories];
                 if (c.fatal)
                     plan_has_fatal = true;
                 calls[c.cid] = c;
@@ -101,117 +108,137 @@ Verdict judge_c11(const Plan &plan, const sim::Shm *shm, const ChildExit &, cons
         return v;
     }
 
-    // read the directory the process left behind
-    auto segs = logdir::read_log_dir(rundir, "app", "log");
-    std::vector<std::string> lines;
-    for (auto &s : segs) {
-        if (!s.decode_ok) {
-            fail11(v, "bad-gzip", "file " + s.name + ": " + s.decode_err);
-            return v;
-        }
-        auto l = logdir::split_lines(s.content);
-        lines.insert(lines.end(), l.begin(), l.end());
-    }
     bool oneline = plan.cfg["mode"].toString().startsWith("oneline");
-    // position of each call's record
-    std::map<int, std::vector<size_t>> pos;
-    {
-        std::map<std::string, int> by_text;
-        for (auto &kv : calls)
-            by_text[kv.second.text] = kv.first;
-        for (size_t i = 0; i < lines.size(); i++) {
-            const std::string &ln = lines[i];
-            if (!oneline) {
-                auto it = by_text.find(ln);
-                if (it != by_text.end())
-                    pos[it->second].push_back(i);
-            } else {
-                // pretty line: "<time> <letter> [T<n> ][[cat] ]<text>": find the "m<p>.<i> " token
-                size_t at = std::string::npos;
-                for (size_t k = 0; k + 3 < ln.size(); k++)
-                    if (ln[k] == 'm' && isdigit((unsigned char)ln[k + 1]) && (k == 0 || ln[k - 1] == ' ')) {
-                        at = k;
+    bool multi = plan.cfg["mode"].toString() == "fluent-multi";
+    int total_required = 0, total_present = 0, total_tolerated = 0, total_files = 0;
+
+    auto check_file = [&](const std::string &stem, int limitN, const std::function<bool(const Call &)> &qualifies) {
+        auto segs = logdir::read_log_dir(rundir, stem, "log");
+        total_files += (int)segs.size();
+        std::vector<std::string> lines;
+        for (auto &s : segs) {
+            if (!s.decode_ok) {
+                fail11(v, "bad-gzip", "file " + s.name + ": " + s.decode_err);
+                return;
+            }
+            auto l = logdir::split_lines(s.content);
+            lines.insert(lines.end(), l.begin(), l.end());
+        }
+        // position of each call's record
+        std::map<int, std::vector<size_t>> pos;
+        {
+            std::map<std::string, int> by_text;
+            for (auto &kv : calls)
+                by_text[kv.second.text] = kv.first;
+            for (size_t i = 0; i < lines.size(); i++) {
+                const std::string &ln = lines[i];
+                if (!oneline) {
+                    auto it = by_text.find(ln);
+                    if (it != by_text.end())
+                        pos[it->second].push_back(i);
+                } else {
+                    // pretty line: "<time> <letter> [T<n> ][[cat] ]<text>": find the "m<p>.<i> " token
+                    size_t at = std::string::npos;
+                    for (size_t k = 0; k + 3 < ln.size(); k++)
+                        if (ln[k] == 'm' && isdigit((unsigned char)ln[k + 1]) && (k == 0 || ln[k - 1] == ' ')) {
+                            at = k;
+                            break;
+                        }
+                    if (at == std::string::npos)
+                        continue;
+                    auto it = by_text.find(ln.substr(at));
+                    if (it != by_text.end())
+                        pos[it->second].push_back(i);
+                }
+            }
+        }
+        std::vector<const Call *> missing, there;
+        for (auto &kv : calls) {
+            const Call &c = kv.second;
+            auto it = pos.find(c.cid);
+            size_t n = it == pos.end() ? 0 : it->second.size();
+            if (n > 1)
+                fail11(v, "duplicate", stem + ".log: record of " + c.text.substr(0, 40) + " appears " + std::to_string(n) + " times");
+            if (n > 0 && !qualifies(c))
+                fail11(v, "filtered-message-in-file", stem + ".log holds " + c.text.substr(0, 40) + ", which its filter rejects");
+            if (n > 0)
+                there.push_back(&c);
+            bool must = false;
+            if (fatal_invoke >= 0 && qualifies(c)) {
+                if (c.cid == fatal_cid)
+                    must = true;
+                else if (c.ret >= 0 && c.ret < fatal_invoke)
+                    must = true;
+            }
+            if (must) {
+                total_required++;
+                if (n == 0)
+                    missing.push_back(&c);
+                else
+                    total_present++;
+            }
+        }
+        for (const Call *c : missing) {
+            // The retention limit (N >= 2) legitimately removes whole oldest files: a missing record is
+            // tolerated iff the directory is at its limit and no record that is present was logged
+            // before it (call returned before this one was invoked) - never the fatal record itself.
+            if (c->cid != fatal_cid && limitN >= 2 && (int)segs.size() >= limitN) {
+                bool older_present = false;
+                for (const Call *p : there)
+                    if (p->ret >= 0 && c->invoke >= 0 && p->ret < c->invoke)
+                        older_present = true;
+                if (!older_present) {
+                    total_tolerated++;
+                    continue;
+                }
+            }
+            std::string what = c->cid == fatal_cid ? "the fatal message" : "a message logged before the fatal one";
+            fail11(v, "fatal-not-flushed",
+                   what + " is not in " + stem + ".log (or its rotated files) after the process died: " + c->text.substr(0, 60)
+                           + " (" + plan.cfg["mode"].toString().toStdString() + ")",
+                   std::string("fatal-not-flushed/") + (c->cid == fatal_cid ? "fatal-record" : "earlier-record"));
+        }
+        // order among the present records: per producer, and real-time precedence
+        if (v.ok) {
+            std::vector<std::pair<size_t, const Call *>> ordered;
+            for (auto &kv : pos)
+                if (!kv.second.empty())
+                    ordered.push_back({ kv.second[0], &calls[kv.first] });
+            std::sort(ordered.begin(), ordered.end());
+            std::map<int, int> last;
+            for (auto &pc : ordered) {
+                const Call *c = pc.second;
+                auto it = last.find(c->producer);
+                if (it != last.end() && it->second > c->opidx)
+                    fail11(v, "reordered", "records of producer " + std::to_string(c->producer) + " are out of order in " + stem + ".log");
+                last[c->producer] = c->opidx;
+            }
+            for (size_t i = 0; i < ordered.size() && v.ok; i++)
+                for (size_t j = i + 1; j < ordered.size(); j++)
+                    if (ordered[j].second->ret >= 0 && ordered[i].second->invoke >= 0
+                        && ordered[j].second->ret < ordered[i].second->invoke) {
+                        fail11(v, "reordered", "a record logged earlier (call returned) is placed after a later one in " + stem + ".log");
                         break;
                     }
-                if (at == std::string::npos)
-                    continue;
-                auto it = by_text.find(ln.substr(at));
-                if (it != by_text.end())
-                    pos[it->second].push_back(i);
-            }
         }
-    }
-    int required = 0, present = 0, retention_tolerated = 0;
-    bool rot = plan.cfg["mode"].toString().endsWith("rot");
+    };
+
+    bool rot = plan.cfg["mode"].toString().endsWith("rot") || plan.cfg["main_rot"].toBool();
     int limitN = rot ? plan.cfg["max_count"].toInt() : 0;
-    std::vector<const Call *> missing, there;
-    for (auto &kv : calls) {
-        const Call &c = kv.second;
-        auto it = pos.find(c.cid);
-        size_t n = it == pos.end() ? 0 : it->second.size();
-        if (n > 1)
-            fail11(v, "duplicate", "record of " + c.text.substr(0, 40) + " appears " + std::to_string(n) + " times");
-        if (n > 0)
-            there.push_back(&c);
-        bool must = false;
-        if (fatal_invoke >= 0) {
-            if (c.cid == fatal_cid)
-                must = true;
-            else if (c.ret >= 0 && c.ret < fatal_invoke)
-                must = true;
-        }
-        if (must) {
-            required++;
-            if (n == 0)
-                missing.push_back(&c);
-            else
-                present++;
-        }
+    check_file("app", limitN, [](const Call &) { return true; });
+    if (multi) {
+        int kind = plan.cfg["audit_kind"].toInt(), arg = plan.cfg["audit_arg"].toInt();
+        check_file("audit", 0, [&](const Call &c) {
+            if (kind == 0)
+                return model::priority(c.type) >= model::priority(arg);
+            if (kind == 1)
+                return model::cat_verdict(arg, c.category, c.type);
+            return model::regex_verdict(arg, c.text);
+        });
     }
-    for (const Call *c : missing) {
-        // The retention limit (N >= 2) legitimately removes whole oldest files: a missing record is
-        // tolerated iff the directory is at its limit and no record that is present was logged
-        // before it (call returned before this one was invoked) - never the fatal record itself.
-        if (c->cid != fatal_cid && limitN >= 2 && (int)segs.size() >= limitN) {
-            bool older_present = false;
-            for (const Call *p : there)
-                if (p->ret >= 0 && c->invoke >= 0 && p->ret < c->invoke)
-                    older_present = true;
-            if (!older_present) {
-                retention_tolerated++;
-                continue;
-            }
-        }
-        std::string what = c->cid == fatal_cid ? "the fatal message" : "a message logged before the fatal one";
-        fail11(v, "fatal-not-flushed",
-               what + " is not in the log files after the process died: " + c->text.substr(0, 60) + " ("
-                       + plan.cfg["mode"].toString().toStdString() + ")",
-               std::string("fatal-not-flushed/") + (c->cid == fatal_cid ? "fatal-record" : "earlier-record"));
-    }
+    int required = total_required, present = total_present, retention_tolerated = total_tolerated;
     v.probes["records_removed_by_retention"] = retention_tolerated;
-    // order among the present records: per producer, and real-time precedence
-    if (v.ok) {
-        std::vector<std::pair<size_t, const Call *>> ordered;
-        for (auto &kv : pos)
-            if (!kv.second.empty())
-                ordered.push_back({ kv.second[0], &calls[kv.first] });
-        std::sort(ordered.begin(), ordered.end());
-        std::map<int, int> last;
-        for (auto &pc : ordered) {
-            const Call *c = pc.second;
-            auto it = last.find(c->producer);
-            if (it != last.end() && it->second > c->opidx)
-                fail11(v, "reordered", "records of producer " + std::to_string(c->producer) + " are out of order in the file");
-            last[c->producer] = c->opidx;
-        }
-        for (size_t i = 0; i < ordered.size() && v.ok; i++)
-            for (size_t j = i + 1; j < ordered.size(); j++)
-                if (ordered[j].second->ret >= 0 && ordered[i].second->invoke >= 0
-                    && ordered[j].second->ret < ordered[i].second->invoke) {
-                    fail11(v, "reordered", "a record logged earlier (call returned) is placed after a later one");
-                    break;
-                }
-    }
+    v.probes["multi_sink_runs"] = multi ? 1 : 0;
     int big = 0;
     for (auto &kv : calls)
         if (kv.second.text.size() > 16384)
@@ -219,7 +246,7 @@ Verdict judge_c11(const Plan &plan, const sim::Shm *shm, const ChildExit &, cons
     v.probes["required_records"] = required;
     v.probes["present_records"] = present;
     v.probes["records_above_16k"] = big;
-    v.probes["files"] = (int)segs.size();
+    v.probes["files"] = total_files;
     v.probes["died_by_abort"] = died ? 1 : 0;
     v.probes["fatal_from_nonmain"] = (fatal_cid >= 0 && (fatal_cid >> 12) != 0) ? 1 : 0;
     return v;
